@@ -3,6 +3,7 @@ import Driver.Trie
 import Driver.Dist
 import Driver.AckQueue
 import Driver.Auth
+import Driver.MsgLog
 /-! `waspmodel <domain> [args]` — executes the Lean models on op lines from stdin. -/
 open Driver
 
@@ -22,4 +23,5 @@ def main (args : List String) : IO UInt32 := do
   | ["dist"] => loop stdin stdout Driver.Dist.step {}; return 0
   | ["ackq"] => loop stdin stdout Driver.AckQueue.step {}; return 0
   | ["auth"] => loop stdin stdout Driver.Auth.step {}; return 0
+  | ["msglog"] => loop stdin stdout Driver.MsgLog.step {}; return 0
   | _ => IO.eprintln "usage: waspmodel <domain>"; return 2
